@@ -1,6 +1,6 @@
 CONSTANTS
   NModels = 12
-  NOperators = 57
+  NOperators = 60
   MaxSite = 25
 INIT Init
 NEXT Next
